@@ -1,13 +1,27 @@
 //! Counting allocator: supplies `peak_alloc` observations for C04 / C12.
 use std::alloc::{GlobalAlloc, Layout, System};
-use std::sync::atomic::{AtomicUsize, Ordering};
+use std::sync::atomic::{AtomicU64, AtomicUsize, Ordering};
 
 pub struct Counting;
 static CUR: AtomicUsize = AtomicUsize::new(0);
 static PEAK: AtomicUsize = AtomicUsize::new(0);
 
+/// the item the driver is working on (drivers that feed untrusted inputs set it before each item)
+pub static CURRENT_ID: AtomicU64 = AtomicU64::new(0);
+/// A single request above this size is never attempted: it is reported (exit 4) as an unbounded allocation of the
+/// current item. Nothing the drivers do legitimately needs 4 GiB in one piece.
+const REQUEST_CAP: usize = 4 << 30;
+
+fn refuse(size: usize) -> ! {
+    eprintln!("VERIF-OOM id={} size={}", CURRENT_ID.load(Ordering::Relaxed), size);
+    std::process::exit(4);
+}
+
 unsafe impl GlobalAlloc for Counting {
     unsafe fn alloc(&self, l: Layout) -> *mut u8 {
+        if l.size() > REQUEST_CAP {
+            refuse(l.size());
+        }
         let p = unsafe { System.alloc(l) };
         if !p.is_null() {
             let c = CUR.fetch_add(l.size(), Ordering::Relaxed) + l.size();
@@ -20,6 +34,9 @@ unsafe impl GlobalAlloc for Counting {
         CUR.fetch_sub(l.size(), Ordering::Relaxed);
     }
     unsafe fn realloc(&self, p: *mut u8, l: Layout, n: usize) -> *mut u8 {
+        if n > REQUEST_CAP {
+            refuse(n);
+        }
         let q = unsafe { System.realloc(p, l, n) };
         if !q.is_null() {
             if n >= l.size() {
